@@ -248,11 +248,15 @@ end Dict
 inductive YCoord
   | int (i : Int)
   | tup (l : List Int)
+  /-- anything else that occurs as a shape entry (e.g. the nested tuple `((2, 2), 2)` of a rank
+      flattened twice), kept as its canonical text; never a coordinate -/
+  | other (s : String)
   deriving DecidableEq, Repr
 
 def YCoord.plain : YCoord → Bool
   | .int _ => true
   | .tup _ => false
+  | .other _ => false
 
 def YCoord.lt : YCoord → YCoord → Bool
   | .int a, .int b => decide (a < b)
@@ -307,6 +311,11 @@ def tensorYamlRoundtrip {d : Nat} (zero : ν) (t : TRep κ ν d) : Option (TRep 
   match yamlText (tensorDump t) with
   | some x => tensorLoad zero x
   | none => none
+
+/-- the deprecated loader `Tensor(yamlfile=file)`: same parse, then `setRankInfo` / `setRoot`;
+    `setRoot` asserts that the root is a fiber, so a rank-0 file cannot be loaded this way -/
+def tensorCtorRoundtrip {d : Nat} (zero : ν) (t : TRep κ ν d) : Option (TRep κ ν d) :=
+  if d = 0 then none else tensorYamlRoundtrip zero t
 
 /-- `Fiber.dump` → text → `Fiber.fromYAMLfile(file, default=x)`: the stored tree comes
     back; every fiber of the result has default `x` (`Fiber.parse` hands it to
